@@ -71,7 +71,9 @@ here, everything else commutes (each release touches its own resource only — `
    (`tDropPanic`), and that the block and the thread-local block are released only *after* it is exactly what
    `dropValTOf` / `epilogueShape` demand of the source (Props/C06 `destructor_runs_before_any_release`);
  * panic handler: tls is copied out before it is freed, exactly once on every thread path; loser: CAS → clear-tid
-   reset → free  [`setTidPanic`]; the stack-unmap + exit asm is last;
+   reset → free  [`setTidPanic`]; the stack-unmap + exit asm is last; on a thread path it never takes one of the
+   library's (non-reentrant) print locks — the closure may have panicked inside an argument of `eprintln!` /
+   `println!` / `dbg!`, holding it, and the handler would wait for itself for ever (the thread never exits, join hangs);
  * join: wait → read the slot → free the block, on every path; the handle's destructor is suppressed;
  * drop: CAS first; the loser waits, then drops the unread result, then frees  [`dropValH`]; the winner touches
    nothing;
@@ -170,6 +172,9 @@ def panicShape (ps : List Path) : Bool :=
   let thr := threadP ps
   let main := ps.filter (has .is_main)
   !(lostP thr).isEmpty && !(wonP thr).isEmpty && !main.isEmpty &&
+  -- on a spawned thread the handler takes none of the library's print locks (`print!`/`eprintln!`/`dbg!`..): they are not
+  -- reentrant and the panic may have been raised inside an argument of such a macro, i.e. with the lock held by this thread
+  thr.all (fun p => !has .print_lock p) &&
   thr.all (fun p => once .tls_read p && once .tls_dealloc p && bef .tls_read .tls_dealloc p && once .cas p &&
     (has .cas_won p != has .cas_lost p) && once .asm_unmap_exit p &&
     [Op.tls_dealloc, .cas, .set_tid_0, .tsm_dealloc].all (fun x => !has x p || bef x .asm_unmap_exit p)) &&
